@@ -169,6 +169,7 @@ class Decompiler(object):
         code = decompiler.code
         co_code = code.co_code
         free = code.co_cellvars + code.co_freevars
+        localsplus = code.co_varnames + tuple(name for name in code.co_cellvars if name not in code.co_varnames) + code.co_freevars
         decompiler.abs_jump_to_top = decompiler.for_iter_pos = -1
         while decompiler.pos < decompiler.end:
             i = decompiler.pos
@@ -237,8 +238,10 @@ class Decompiler(object):
                     arg = [cmp_op[oparg]]
                 elif op in hasfree:
                     if PY311:
-                        oparg -= len(code.co_varnames)
-                    arg = [free[oparg]]
+                        # the argument indexes the "fast locals plus" array: local variables first (a parameter that is captured
+                        # by a nested function is a cell, but keeps its slot among the locals), then the other cells, then free variables
+                        arg = [localsplus[oparg]]
+                    else: arg = [free[oparg]]
                 elif op in hasjabs:
                     arg = [oparg * (2 if PY310 else 1)]
                 else:
